@@ -163,10 +163,10 @@ func pgpKey(info Info, data []byte) (Info, error) {
 	sort.Strings(names)
 	for _, name := range names {
 		i := e.Identities[name]
+		// Only the self-signature was verified. i.Signatures holds certifications by other
+		// keys (and anything else that followed the user ID): nothing in them has been
+		// checked, so they say nothing about the usage or the expiry of this key.
 		attrs := gpgSignatureAttributes(i.SelfSignature, e.PrimaryKey.CreationTime)
-		for _, s := range i.Signatures {
-			attrs = append(attrs, gpgSignatureAttributes(s, e.PrimaryKey.CreationTime)...)
-		}
 		info.Children = append(info.Children, Info{
 			Description: i.Name,
 			Attributes:  attrs,
